@@ -156,17 +156,19 @@ func (r *Rec) Violation(key, what string, witness interface{}) {
 // Begin journals the sub-input that is about to be executed, durably, so that
 // a process death can be attributed to it.
 func (r *Rec) Begin(desc string) {
+	r.mu.Lock()
 	r.cur = desc
+	r.mu.Unlock()
 	if r.journal != nil {
 		r.journal.WriteString("S " + strconv.Quote(desc) + "\n")
 	}
 }
 
 // Note remembers the current sub-input in memory only (for recoverable panics).
-func (r *Rec) Note(desc string) { r.cur = desc }
+func (r *Rec) Note(desc string) { r.mu.Lock(); r.cur = desc; r.mu.Unlock() }
 
 // Cur returns the current sub-input.
-func (r *Rec) Cur() string { return r.cur }
+func (r *Rec) Cur() string { r.mu.Lock(); defer r.mu.Unlock(); return r.cur }
 
 // Hash is the 64-bit FNV-1a hash used for distinctness.
 func Hash(s string) uint64 {
@@ -258,7 +260,7 @@ func RunWorker(c *Check, phaseName, tier string, seed int64, k, n, from, only in
 			s2 := AllStacks()
 			desc := ""
 			if rec != nil {
-				desc = rec.cur
+				desc = rec.Cur()
 			}
 			if AllBlocked(s1) && AllBlocked(s2) && blockedSignature(s1) == blockedSignature(s2) {
 				emit(out, workerMsg{Kind: "deadlock", Idx: idx, Stack: trimStack(s2), Desc: desc})
@@ -290,7 +292,7 @@ func RunWorker(c *Check, phaseName, tier string, seed int64, k, n, from, only in
 				if e := recover(); e != nil {
 					st := string(debugStack())
 					rec.Violation("panic/"+PanicClass(fmt.Sprint(e), st), fmt.Sprintf("panic in calling goroutine: %v", e),
-						map[string]interface{}{"input": rec.cur, "stack": trimStack(st)})
+						map[string]interface{}{"input": rec.Cur(), "stack": trimStack(st)})
 				}
 			}()
 			ph.Run(i, rec)
@@ -382,6 +384,10 @@ func AllBlocked(dump string) bool {
 		st := g.State
 		if i := strings.Index(st, ","); i >= 0 {
 			st = st[:i]
+		}
+		if strings.Contains(g.Stack, "runtime.Stack(") || strings.Contains(g.Stack, "bwverif/rt.Leaked(") {
+			// the case goroutine is inside one of the harness's own monitors
+			return false
 		}
 		switch st {
 		case "chan send", "chan receive", "select", "sync.Mutex.Lock", "sync.RWMutex.Lock", "sync.RWMutex.RLock",
@@ -683,12 +689,14 @@ func runOneWorker(c *Check, ph Phase, tier string, seed int64, k, n, from int, a
 	if ph.Race {
 		collectRaces(a, ph.Name, racePrefix)
 	}
-	if done && err == nil {
+	if done && (err == nil || ph.Race) {
+		// a race-instrumented worker exits with status 66 when it reported
+		// races; the reports have been collected above
 		os.Remove(journal)
 		os.Remove(stderrPath)
 		return 0, false
 	}
-	if recycle && err == nil {
+	if recycle && (err == nil || ph.Race) {
 		os.Remove(journal)
 		os.Remove(stderrPath)
 		a.mu.Lock()
@@ -898,6 +906,9 @@ func collectRaces(a *agg, phase, prefix string) {
 			}
 			sort.Strings(fr)
 			key := "race/" + strings.Join(fr, "~")
+			if !strings.Contains(blk, "github.com/google/badwolf/") {
+				key = "harness-race/" + fmt.Sprintf("%x", Hash(regexp.MustCompile(`0x[0-9a-f]+|goroutine \d+`).ReplaceAllString(blk, ""))&0xffff)
+			}
 			v := Viol{Key: key, What: "data race reported by the Go race detector", Phase: phase, Witness: map[string]interface{}{"report": trimStack(blk)}}
 			a.mu.Lock()
 			a.violN[key]++
@@ -917,6 +928,12 @@ func RunCheck(c *Check, tier string, seed int64) int {
 	os.MkdirAll(scratch, 0o755)
 	a := &agg{nt: map[uint64]struct{}{}, counts: map[string]int64{}, sets: map[string]map[uint64]struct{}{}, viols: map[string]*Viol{}, violN: map[string]int{}, perPhase: map[string]int64{}}
 	phases := c.Phases(tier, seed)
+	// replay files describe this run only
+	if old, _ := filepath.Glob(filepath.Join(Root, "replay", c.ID, "*.json")); len(old) > 0 {
+		for _, f := range old {
+			os.Remove(f)
+		}
+	}
 	exh := len(phases) > 0
 	var phaseInfo []map[string]interface{}
 	for _, ph := range phases {
